@@ -1,12 +1,125 @@
 import GrinVerif.Drv.Common
-/-! Driver glue for the `crash` domain (line protocol handler). -/
+import GrinVerif.Model.Crash
+/-! Driver glue for the `crash` domain (C09): the real step labels of a scenario are interpreted
+as model steps, the durable state at each crash point is computed by the model and `recover`
+predicts how the node reopens. -/
 namespace GV.Drv.CrashD
-open GV GV.Drv
+open GV GV.Drv GV.Crash
+
+structure Scn where
+  name : String
+  kind : String
+  input : Option Nat
+  oldHead : Nat
+  labels : List String := []
 
 structure St where
-  dummy : Unit := ()
+  tbl : List BlkInfo := []
+  scns : List Scn := []
 
-def handle (st : St) (_args : List String) (_impl : String) : St × Verdict :=
-  (st, .unknown)
+def stripPfx (s : String) (n : Nat) : String := (s.drop n).toString
+def idOf (s : String) : Option Nat := (((stripPfx s 1).splitOn ":").headD "").toNat?
+def kv (args : List String) (k : String) : Option String :=
+  (args.find? (·.startsWith (k ++ "="))).map (fun a => stripPfx a (k.length + 1))
+def listItems (s : String) : List String :=
+  let inner := (s.drop 1).dropEnd 1 |>.toString
+  if inner.isEmpty then [] else inner.splitOn ","
+
+def parseBlk (id : String) (args : List String) : Option BlkInfo := do
+  let bid ← idOf id
+  let parS ← kv args "parent"
+  let parent := if parS == "-" then none else idOf parS
+  let work ← (← kv args "work").toNat?
+  let ins ← (listItems (← kv args "ins")).mapM idOf
+  let outs ← (listItems (← kv args "outs")).mapM idOf
+  pure { id := bid, parent, work, outs, ins }
+
+/-- model step(s) a real label has completed -/
+def stepOfLabel (l : String) : Option Step :=
+  if l.startsWith "aof.flush:after-truncate[header_head/pmmr_hash.bin]" then some .hdrHashTrunc
+  else if l.startsWith "aof.flush:after-append[header_head/pmmr_hash.bin]" then some .hdrHashApp
+  else if l.startsWith "aof.flush:after-truncate[header_head/pmmr_data.bin]" then some .hdrDataTrunc
+  else if l.startsWith "aof.flush:after-append[header_head/pmmr_data.bin]" then some .hdrDataApp
+  else if l.startsWith "aof.flush:after-truncate[output/pmmr_hash.bin]" then some .outHashTrunc
+  else if l.startsWith "aof.flush:after-append[output/pmmr_hash.bin]" then some .outHashApp
+  else if l.startsWith "aof.flush:after-truncate[output/pmmr_data.bin]" then some .outDataTrunc
+  else if l.startsWith "aof.flush:after-append[output/pmmr_data.bin]" then some .outDataApp
+  else if l.startsWith "tmpfile:after-rename[output/pmmr_leaf.bin]" then some .leafRename
+  else if l.startsWith "aof.flush:after-truncate[kernel/pmmr_hash.bin]" then some .kerHashTrunc
+  else if l.startsWith "aof.flush:after-append[kernel/pmmr_hash.bin]" then some .kerHashApp
+  else if l.startsWith "aof.flush:after-truncate[kernel/pmmr_data.bin]" then some .kerDataTrunc
+  else if l.startsWith "aof.flush:after-append[kernel/pmmr_data.bin]" then some .kerDataApp
+  else none
+
+/-- the LMDB commits of one acceptance, in order: nested child, header commit, nested child,
+final commit (a header-only input stops after the second) -/
+def commitStep (k : Nat) : Step :=
+  match k with
+  | 1 => .hdrCommit
+  | 3 => .finalCommit
+  | _ => .childCommit
+
+/-- interpret the first `n` labels -/
+def stepsOfLabels (labels : List String) (n : Nat) : List Step :=
+  let rec go : List String → Nat → List Step → List Step
+    | [], _, acc => acc.reverse
+    | l :: ls, commits, acc =>
+      if l.startsWith "lmdb:after-commit" then go ls (commits + 1) (commitStep commits :: acc)
+      else match stepOfLabel l with
+        | some s => go ls commits (s :: acc)
+        | none => go ls commits acc
+  go (labels.take n) 0 []
+
+def commonPrefixLen : List BlkInfo → List BlkInfo → Nat
+  | a :: as, b :: bs => if a.id == b.id then 1 + commonPrefixLen as bs else 0
+  | _, _ => 0
+
+def predict (st : St) (sc : Scn) (n : Nat) : Option String := do
+  let input ← sc.input
+  let oldPath ← pathOf st.tbl (st.tbl.length + 1) sc.oldHead []
+  let newPath ← pathOf st.tbl (st.tbl.length + 1) input []
+  let b ← st.tbl.find? (·.id == input)
+  let oldWork := ((st.tbl.find? (·.id == sc.oldHead)).map (·.work)).getD 0
+  let moves := b.work > oldWork
+  let t : Target := { newPath, forkLen := commonPrefixLen oldPath newPath, movesHHead := moves,
+                      movesHead := moves && sc.kind == "block" }
+  let d := (stepsOfLabels sc.labels n).foldl (applyStep t) (consistent oldPath)
+  -- AutomatedTesting: a hard fork every 3 blocks, header version 3 from height 6
+  match recover (fun h => decide (h ≥ 6)) st.tbl d with
+  | .openFail why => pure s!"open=err:{why.toString}"
+  | .ok h => pure s!"open=ok head=b{h}"
+
+/-- compare on the reopen class and head only -/
+def implClass (impl : String) : String :=
+  match splitWs impl with
+  | a :: b :: _ => if a == "open=ok" then s!"{a} {b}" else a
+  | [a] => a
+  | [] => ""
+
+def handle (st : St) (args : List String) (impl : String) : St × Verdict :=
+  match args with
+  | "reset" :: _ => ({}, .ok)
+  | "blk" :: b :: rest =>
+    match parseBlk b rest with
+    | some blk => ({ st with tbl := st.tbl ++ [blk] }, .ok)
+    | none => (st, .unknown)
+  | "scenario" :: name :: rest =>
+    let kind := (kv rest "kind").getD ""
+    let input := (kv rest "input").bind idOf
+    let old := ((kv (splitWs impl) "old").bind idOf).getD 0
+    ({ st with scns := { name, kind, input, oldHead := old } :: st.scns.filter (·.name != name) }, .ok)
+  | ["steps", name, labels] =>
+    match st.scns.find? (·.name == name) with
+    | some sc => ({ st with scns := { sc with labels := labels.splitOn "," } :: st.scns.filter (·.name != name) }, .ok)
+    | none => (st, .unknown)
+  | ["case", name, n, _label] =>
+    match st.scns.find? (·.name == name), n.toNat? with
+    | some sc, some n =>
+      if sc.kind == "compact" || name.startsWith "compaction" then (st, .ok)  -- not modelled (stated)
+      else match predict st sc n with
+        | some m => (st, cmpModel m (implClass impl))
+        | none => (st, .unknown)
+    | _, _ => (st, .unknown)
+  | _ => (st, .unknown)
 
 end GV.Drv.CrashD
